@@ -184,7 +184,11 @@ func (ci *ChunkInfo) updateQueue(ctx context.Context, authInfo []byte, rootCid, 
 		return
 	}
 	for over := range chunkInfo {
-		o := boson.MustParseHexAddress(over)
+		// the map keys come from the peer's message
+		o, err := boson.ParseHexAddress(over)
+		if err != nil {
+			continue
+		}
 		n := o.Bytes()
 		if o.Equal(ci.addr) {
 			continue
